@@ -61,6 +61,15 @@ func H_C12_immutable() {
 	c1 := WithConfig(opts...)
 	c2 := WithConfig(Dir(dir), Filename("other"))
 	snap1, snap2, snapDef := *c1, *c2, defaultConfig
+	var json1 JSONConfig
+	if c1.json != nil {
+		json1 = *c1.json
+	}
+	// a third Config built from the same option values plus further options: building it
+	// must not reach into c1
+	c3 := WithConfig(append(append([]func(*Config){}, opts...), JSON(JSONConfig{Indent: "\t", Width: 7}), Ext(".x"), Filename("third"), Update(false))...)
+	_ = c3
+	vxrt.Assert(cfgEqual(*c1, snap1) && (c1.json == nil || *c1.json == json1), "C12:configs-built-from-shared-options-are-independent")
 	vxrt.Freeze(c1, "shared Config c1")
 
 	seq := vxrt.Len("calls", 1, vxrt.Param("calls", 2))
@@ -153,7 +162,15 @@ func H_C12_concurrent() {
 		fresh := WithConfig(opts...)
 		t := newT([]string{"TestA", "TestB"}[g])
 		before := dirNames(dir)
-		callAPI(fresh, apis[g], t, `"v"`)
+		// in a goroutine of its own, as in the concurrent run below (a goroutine's call
+		// stack does not end in the test runner, which matters for the default file name)
+		var w1 sync.WaitGroup
+		w1.Add(1)
+		go func() {
+			defer w1.Done()
+			callAPI(fresh, apis[g], t, `"v"`)
+		}()
+		w1.Wait()
 		t.end()
 		alone[g] = newNames(before, dirNames(dir))
 		for _, nme := range dirNames(dir) {
